@@ -10,7 +10,7 @@
    the node table (true for the linker method by construction, a precondition of the standalone
    function). *)
 From Coq Require Import ZArith List Bool QArith Permutation Lia.
-From Splinkv Require Import Base.Graph Model.CC Proofs.CCP.
+From Splinkv Require Import Base.Graph Model.CC Proofs.CCP Model.CCSkel Proofs.CCSkelP Proofs.CCRelabelP.
 Import ListNotations.
 Open Scope Z_scope.
 
@@ -198,6 +198,13 @@ Theorem C05_neighbour_left_joins_always_match :
 Proof. exact neighbours_left_joins_match. Qed.
 Print Assumptions C05_neighbour_left_joins_always_match.
 
+(* T: the per-CTE obligation `skel_ok (name, s) = true` evaluated on every run holds exactly when
+   the skeleton regenerated from /repo is the one Model/CCSkel.v records for that CTE *)
+Theorem C05_skeleton_check_decides_equality :
+  forall name s, skel_ok (name, s) = true <-> lookup_sk name expected = Some s.
+Proof. exact skel_ok_iff. Qed.
+Print Assumptions C05_skeleton_check_decides_equality.
+
 (* the executable spec used by the correspondence check is the component minimum *)
 Theorem C05_comp_min_exec_is_spec :
   forall nodes E v, In v nodes ->
@@ -225,4 +232,93 @@ Example C05_example :
 Proof. vm_compute. reflexivity. Qed.
 Example C05_example_spec :
   map (comp_min ex_nodes (thresholded (Some (Qmake 1 2)) ex_edges)) ex_nodes = [0; 0; 2; 0; 4; 0; 0; 2].
+Proof. vm_compute. reflexivity. Qed.
+
+(* ------------------------------------------------------------------------------------ *)
+(* Re-presentation invariance (also the clustering half of C13).
+   relabel_edges f edges = the same edge rows with both ids mapped through f. *)
+
+(* spec level *)
+Theorem C05_comp_min_commutes_with_order_preserving_relabelling :
+  forall (f : Z -> Z) nodes E v,
+    (forall x y, x < y -> f x < f y) -> In v nodes ->
+    comp_min (map f nodes) (map_edges f E) (f v) = f (comp_min nodes E v).
+Proof. exact comp_min_relabel_monotone. Qed.
+Print Assumptions C05_comp_min_commutes_with_order_preserving_relabelling.
+
+Theorem C05_partition_invariant_under_injective_relabelling :
+  forall (f : Z -> Z) nodes E v w,
+    (forall x y, f x = f y -> x = y) -> In v nodes -> In w nodes ->
+    (comp_min (map f nodes) (map_edges f E) (f v) = comp_min (map f nodes) (map_edges f E) (f w) <->
+     comp_min nodes E v = comp_min nodes E w).
+Proof. exact comp_min_relabel_partition. Qed.
+Print Assumptions C05_partition_invariant_under_injective_relabelling.
+
+Theorem C05_comp_min_row_order_irrelevant :
+  forall nodes nodes2 E E2 v,
+    Permutation nodes nodes2 -> Permutation E E2 -> In v nodes ->
+    comp_min nodes E v = comp_min nodes2 E2 v.
+Proof.
+  intros nodes nodes2 E E2 v Pn Pe Hv. apply comp_min_rows_irrelevant; auto.
+  - intros x; split; apply Permutation_in; [exact Pn|now apply Permutation_sym].
+  - intros e; split; apply Permutation_in; [exact Pe|now apply Permutation_sym].
+Qed.
+Print Assumptions C05_comp_min_row_order_irrelevant.
+
+(* loop model, through total correctness: a strictly order-preserving relabelling of the ids
+   relabels the whole output (node ids and cluster ids) and nothing else *)
+Theorem C05_relabel_order_preserving :
+  forall (f : Z -> Z) nodes edges thr,
+    closed_edges nodes (thresholded thr edges) ->
+    (forall x y, x < y -> f x < f y) ->
+    exists out out',
+      cluster_at_threshold nodes edges thr = Some out /\
+      cluster_at_threshold (map f nodes) (relabel_edges f edges) thr = Some out' /\
+      (forall v c, In (v, c) out -> In (f v, f c) out') /\
+      (forall v' c', In (v', c') out' -> exists v c, v' = f v /\ c' = f c /\ In (v, c) out).
+Proof. intros f nodes edges thr CL Mono. now apply relabel_monotone. Qed.
+Print Assumptions C05_relabel_order_preserving.
+
+(* under an arbitrary injective relabelling the partition is preserved: two records share a
+   cluster before iff their images share a cluster after (the cluster ids themselves may change,
+   because the smallest member of a cluster may change) *)
+Theorem C05_relabel_injective_preserves_partition :
+  forall (f : Z -> Z) nodes edges thr,
+    closed_edges nodes (thresholded thr edges) ->
+    (forall x y, f x = f y -> x = y) ->
+    exists out out',
+      cluster_at_threshold nodes edges thr = Some out /\
+      cluster_at_threshold (map f nodes) (relabel_edges f edges) thr = Some out' /\
+      (forall v, In v nodes -> exists c c', In (v, c) out /\ In (f v, c') out') /\
+      (forall v w c d c' d', In (v, c) out -> In (w, d) out -> In (f v, c') out' -> In (f w, d') out' ->
+                             (c = d <-> c' = d')).
+Proof. intros f nodes edges thr CL Inj. now apply relabel_injective_partition. Qed.
+Print Assumptions C05_relabel_injective_preserves_partition.
+
+(* permuting the rows of the node table and of the edge table changes nothing *)
+Theorem C05_row_order_irrelevant :
+  forall nodes nodes2 edges edges2 thr,
+    closed_edges nodes (thresholded thr edges) ->
+    Permutation nodes nodes2 -> Permutation edges edges2 ->
+    exists out out2,
+      cluster_at_threshold nodes edges thr = Some out /\
+      cluster_at_threshold nodes2 edges2 thr = Some out2 /\
+      forall v c, In (v, c) out <-> In (v, c) out2.
+Proof. intros nodes nodes2 edges edges2 thr CL Pn Pe. now apply rows_irrelevant. Qed.
+Print Assumptions C05_row_order_irrelevant.
+
+(* non-vacuity: x -> 3x + 5 is order preserving, x -> 7 - x is injective but order reversing
+   (cluster ids become the images of the *largest* members); reversed row order *)
+Example C05_relabel_example_monotone :
+  cluster_at_threshold (map (fun x => 3 * x + 5) ex_nodes) (relabel_edges (fun x => 3 * x + 5) ex_edges) (Some (Qmake 1 2))
+  = Some (map (fun vc => (3 * fst vc + 5, 3 * snd vc + 5))
+              [(2, 2); (4, 4); (7, 2); (0, 0); (1, 0); (3, 0); (5, 0); (6, 0)]).
+Proof. vm_compute. reflexivity. Qed.
+Example C05_relabel_example_reversing :
+  cluster_at_threshold (map (fun x => 7 - x) ex_nodes) (relabel_edges (fun x => 7 - x) ex_edges) (Some (Qmake 1 2))
+  = Some [(5, 0); (3, 3); (0, 0); (7, 1); (6, 1); (4, 1); (2, 1); (1, 1)].
+Proof. vm_compute. reflexivity. Qed.
+Example C05_rows_example :
+  cluster_at_threshold (rev ex_nodes) (rev ex_edges) (Some (Qmake 1 2))
+  = Some [(7, 2); (4, 4); (2, 2); (6, 0); (5, 0); (3, 0); (1, 0); (0, 0)].
 Proof. vm_compute. reflexivity. Qed.
